@@ -1,16 +1,216 @@
-import VncModel.Client.Session
+import VncModel.Client.Requests
+import VncModel.Client.RefineHex2
+import VncModel.Client.Copy
+import VncModel.Client.Reader
 /-!
 # C07 — LibVNCClient reconstructs exactly what a conforming server encoded  (property theorems)
 
-(under construction: the theorems are added below as they are proved)
+## What is modelled (`VncModel/Client/*.lean`, tied to the code by `./check C07` on every run)
+* `Basic.lean`  — `client->frameBuffer` (one `Pixel` per cell) and the three write primitives of
+  vncviewer.c with their loop orders: `fillRectangle`, `copyRectangle`, `copyFromRect`.
+* `Decode.lean` — the decoders as the C code does them: Raw (row batching through `client->buffer`),
+  CopyRect, RRE, CoRRE (sub-rectangles buffered in one read, count guard), Hextile (bg/fg variables,
+  coloured sub-rectangles clobber fg), TRLE (palette reuse, last_type), the ZRLE tile decoder
+  (length checks, packed-palette shift loop, run-length accumulation).
+* `Session.lean` — Zlib/ZRLE/Ultra/Tight containers (external codecs = oracle parameters), cursor
+  shape, pseudo-encodings, message loop, handshake, the request builders.
+* `Reader.lean` — `ReadFromRFBServer` over an arbitrarily segmented stream.
+The *specification* is `VncModel.Enc.Spec` (C01) plus `Client/SpecExtra.lean` (strict Hextile).
+
+## Theorems (for ALL inputs; `blit fb x y w h px` = framebuffer with the rectangle replaced by `px`)
+* `client_decoder_refines_spec_{raw,rre,corre,hextile}`: if the specification decodes the
+  rectangle payload to `px` then the client decoder returns TRUE, leaves the same rest of the
+  stream and the framebuffer is `blit fb … px`.  With C01's `decode_encodeWith` this is "the
+  client reconstructs exactly what any valid encoder produced".
+* `client_decoder_refines_spec_zrle_tile` / `…_zrle_tiles`: the same for every ZRLE tile
+  sub-encoding (raw, solid, packed palette 1/2/4 bit with row padding, plain RLE, palette RLE)
+  and for the tile loop over the inflated data.
+* `client_decoder_refines_spec_copyrect` + `copyrect_memmove`: CopyRect parses as specified and
+  `CopyRectangleFromRectangle` is the simultaneous copy for all 8 directions of overlap.
+* `read_buffering_invariant`, `read_segmentation_independent`.
+* `client_requests_wellformed`.
+
+## Partial (`_partial` or not proved; covered by the correspondence run only)
+* TRLE tiles: modelled (Decode.lean `trleTile`) and compared with the code and with
+  `Spec.decodeTRLE` on every run, but the refinement theorem is not proved.
+  -- full statement:  ∀ cp fb st cst …, TrleRel prev cst → decodeTRLETile cp tw th prev bs = some ((px, prev'), rest) →
+  --   ∃ cst', trleTile cp rawBuf fb cst x y tw th bs = some ((blit fb x y tw th px, cst'), rest) ∧ TrleRel prev' cst'
+* Tight: the client model reuses the specification's filter arithmetic (`tightFilterRows`); what
+  is client-specific (compact length, 12-byte rule, row accounting, stream ids) is modelled and
+  compared, not proved against `Spec.decodeTight`.
+* Zlib/Ultra/ZRLE containers: `inflate`/LZO are parameters (oracle queue); the theorems are about
+  the data after decompression.  ZRLE data must fit `2·w·h·cpixel` bytes (the client's buffer):
+  hypothesis of `zrle_tiles`, enforced in the generator, documented in docs/C07.md.
+* CPIXEL selection: `clientCPix f = f.cpix` is checked by `decide` on the format catalogue below
+  (a test), not proved for all formats; it is FALSE for depth > 24 (known finding `cpixel-depth`):
+  the refinement theorems take the CPIXEL variant `cp` as a parameter, i.e. they carry the
+  hypothesis `depth ≤ 24 ∨ ¬fits3` exactly through `clientCPix f = f.cpix`.
 -/
 namespace VncModel.Props.C07
-open VncModel.Client VncModel.Enc.Spec VncModel.Gen.C07
+open VncModel.Client
+open VncModel.Enc.Spec hiding encRaw encCopyRect encRRE encCoRRE encHextile encZlib encTight encUltra encTRLE encZRLE encZYWRLE encLastRect tightMinToCompress
+open VncModel.Gen.C07
 
-/-- `SendFramebufferUpdateRequest` serialises to exactly `sz_rfbFramebufferUpdateRequestMsg` bytes,
-type byte first, for all arguments -/
-theorem fbUpdateRequest_length (x y w h : Nat) (incr : Bool) :
-    (fbUpdateRequest x y w h incr).length = szFramebufferUpdateRequest := by
-  simp [fbUpdateRequest, u16be, szFramebufferUpdateRequest]
+/-! ## client_decoder_refines_spec -/
+
+theorem client_decoder_refines_spec_raw (bpp : Nat) (fb : FB) (x y w h : Nat) (bs : Bytes)
+    (px : List Pixel) (rest : Bytes) (hbpp : 1 ≤ bpp) (hfit : w * bpp ≤ rfbBufferSize)
+    (hW : x + w ≤ fb.w) (hH : y + h ≤ fb.h)
+    (hsp : decodeRaw ⟨w, h⟩ bpp bs = some (px, rest)) :
+    clientRaw bpp fb x y w h bs = some (blit fb x y w h px, rest) :=
+  clientRaw_refines bpp fb x y w h bs px rest hbpp hfit hW hH hsp
+
+theorem client_decoder_refines_spec_rre (bpp : Nat) (fb : FB) (rx ry rw rh : Nat) (bs : Bytes)
+    (px : List Pixel) (rest : Bytes) (hW : rx + rw ≤ fb.w) (hH : ry + rh ≤ fb.h)
+    (hsp : decodeRRE ⟨rw, rh⟩ bpp bs = some (px, rest)) :
+    clientRRE bpp fb rx ry rw rh bs = some (blit fb rx ry rw rh px, rest) :=
+  clientRRE_refines bpp fb rx ry rw rh bs px rest hW hH hsp
+
+/-- CoRRE; `hguard`: the sub-rectangle count passes the guard of corre.c:49 (a count above
+`RFB_BUFFER_SIZE/(4+bytespp)` — more bytes than Raw would need — is rejected by the library) -/
+theorem client_decoder_refines_spec_corre (bpp : Nat) (fb : FB) (rx ry rw rh : Nat) (bs : Bytes)
+    (px : List Pixel) (rest : Bytes) (hW : rx + rw ≤ fb.w) (hH : ry + rh ≤ fb.h)
+    (hsp : decodeCoRRE ⟨rw, rh⟩ bpp bs = some (px, rest))
+    (hguard : ∀ n r, readU32 bs = some (n, r) → correGuard bpp n = true) :
+    clientCoRRE bpp fb rx ry rw rh bs = some (blit fb rx ry rw rh px, rest) :=
+  clientCoRRE_refines bpp fb rx ry rw rh bs px rest hW hH hsp hguard
+
+/-- Hextile, all flag combinations, bg/fg persistence over the tiles of the rectangle.
+Valid streams = accepted by the strict decoder (foreground unspecified after a tile with coloured
+sub-rectangles, see SpecExtra.lean); on those `Spec.decodeHextile` yields the same pixels. -/
+theorem client_decoder_refines_spec_hextile (bpp : Nat) (fb : FB) (rx ry rw rh : Nat) (bs : Bytes)
+    (px : List Pixel) (rest : Bytes) (hW : rx + rw ≤ fb.w) (hH : ry + rh ≤ fb.h)
+    (hsp : decodeHextileStrict ⟨rw, rh⟩ bpp bs = some (px, rest)) :
+    clientHextile bpp fb rx ry rw rh bs = some (blit fb rx ry rw rh px, rest) ∧
+    decodeHextile ⟨rw, rh⟩ bpp bs = some (px, rest) :=
+  clientHextile_refines_spec bpp fb rx ry rw rh bs px rest hW hH hsp
+
+/-- every ZRLE tile sub-encoding (the tile is non-empty, as all tiles of `tileGrid` are) -/
+theorem client_decoder_refines_spec_zrle_tile (cp : CPix) (tw th : Nat) (buf : Bytes) (px : List Pixel)
+    (rest : Bytes) (hne : 1 ≤ tw * th) (hsp : decodeZRLETile cp tw th buf = some (px, rest)) :
+    zrleTile cp tw th buf = some (px, rest) :=
+  zrleTile_refines cp tw th buf px rest hne hsp
+
+/-- the tile loop of `HandleZRLE` over the inflated data paints exactly the specification's tiles,
+which is the rectangle `Spec.assemble` describes (`hlen`: every decoded tile has `w·h` pixels) -/
+theorem client_decoder_refines_spec_zrle_tiles (cp : CPix) (fb : FB) (rx ry rw rh : Nat) (data : Bytes)
+    (pxs : List (List Pixel)) (rest : Bytes) (hW : rx + rw ≤ fb.w)
+    (hsp : decodeZRLETiles cp (tileGrid 64 ⟨rw, rh⟩) data = some (pxs, rest))
+    (hlen : pxs.length = (tileGrid 64 ⟨rw, rh⟩).length ∧
+      ∀ j (h1 : j < (tileGrid 64 ⟨rw, rh⟩).length) (h2 : j < pxs.length),
+        (pxs[j]).length = ((tileGrid 64 ⟨rw, rh⟩)[j]).w * ((tileGrid 64 ⟨rw, rh⟩)[j]).h) :
+    zrleTiles cp rx ry (tileGrid 64 ⟨rw, rh⟩) fb data =
+      (blit fb rx ry rw rh (assemble 64 ⟨rw, rh⟩ pxs), true) := by
+  rw [zrleTiles_refines cp rx ry _ fb data pxs rest (tileGrid_nonempty (by decide) _) hsp,
+    blitTiles_eq_blit_assemble (by decide) ⟨rw, rh⟩ fb rx ry pxs hW hlen.1 hlen.2]
+
+/-- CopyRect: the payload is parsed as specified; the effect is `copyFromRect` -/
+theorem client_decoder_refines_spec_copyrect (fb : FB) (x y w h : Nat) (bs : Bytes) :
+    clientCopyRect fb x y w h bs =
+      (decodeCopyRect bs).map fun ((sx, sy), r) => (copyFromRect fb sx sy w h x y, r) := by
+  simp only [clientCopyRect, decodeCopyRect]
+  cases readU16 bs with
+  | none => rfl
+  | some p =>
+    obtain ⟨sx, bs1⟩ := p
+    simp only
+    cases readU16 bs1 with
+    | none => rfl
+    | some q => obtain ⟨sy, r⟩ := q; rfl
+
+/-! ## copyrect_memmove -/
+
+/-- for every relative position of source and destination (8 directions of overlap, no overlap,
+identical) `CopyRectangleFromRectangle` leaves in every destination cell the ORIGINAL content of
+the corresponding source cell and changes nothing else -/
+theorem copyrect_memmove (fb : FB) (hwf : fb.WF) (sx sy w h dx dy : Nat)
+    (hs : checkRect fb sx sy w h = true) (hd : checkRect fb dx dy w h = true) :
+    copyFromRect fb sx sy w h dx dy = simCopy fb sx sy w h dx dy :=
+  copyFromRect_eq_simCopy fb hwf sx sy w h dx dy hs hd
+
+/-! ## read_buffering_invariant -/
+
+theorem read_buffering_invariant (s : RdSt) (n : Nat) (hne : NonEmptyChunks s.chunks) :
+    if n ≤ s.stream.length then
+      ∃ s', readFrom s n = some (s.stream.take n, s') ∧ s'.stream = s.stream.drop n ∧ NonEmptyChunks s'.chunks
+    else readFrom s n = none :=
+  readFrom_spec s n hne
+
+/-- two segmentations of the same remaining stream give the same bytes to the caller -/
+theorem read_segmentation_independent (s t : RdSt) (n : Nat) (hs : NonEmptyChunks s.chunks)
+    (ht : NonEmptyChunks t.chunks) (heq : s.stream = t.stream) :
+    (readFrom s n).map (·.1) = (readFrom t n).map (·.1) := by
+  have a := readFrom_spec s n hs
+  have b := readFrom_spec t n ht
+  rw [heq] at a
+  by_cases hn : n ≤ t.stream.length
+  · simp only [hn, if_true] at a b
+    obtain ⟨s', h1, _⟩ := a
+    obtain ⟨t', h2, _⟩ := b
+    simp [h1, h2]
+  · simp only [hn, if_false] at a b
+    simp [a, b]
+
+/-! ## client_requests_wellformed -/
+
+/-- the three requests the library sends on its own have exactly the sizes of the protocol
+structures (T0: `sz_rfb…Msg`), SetEncodings announces what it carries and at most
+`MAX_ENCODINGS`, and an update request parses back to the arguments -/
+theorem client_requests_wellformed (f : PixFmt) (encs : List String) (cursor newFB : Bool)
+    (henc : encs.length ≤ 31) (x y w h : Nat) (incr : Bool)
+    (hx : x < 65536) (hy : y < 65536) (hw : w < 65536) (hh : h < 65536) :
+    (setPixelFormatMsg f).length = szSetPixelFormat ∧
+    (setEncodingsMsg (encodingList encs cursor newFB)).length =
+      szSetEncodings + 4 * (encodingList encs cursor newFB).length ∧
+    (encodingList encs cursor newFB).length ≤ maxEncodings ∧
+    readU16 ((setEncodingsMsg (encodingList encs cursor newFB)).drop 2) =
+      some ((encodingList encs cursor newFB).length, (encodingList encs cursor newFB).flatMap u32be) ∧
+    (fbUpdateRequest x y w h incr).length = szFramebufferUpdateRequest ∧
+    parseFBUR (fbUpdateRequest x y w h incr) =
+      some (msgFramebufferUpdateRequest, if incr then 1 else 0, x, y, w, h) := by
+  have hle := encodingList_le encs cursor newFB henc
+  refine ⟨setPixelFormatMsg_length f, setEncodingsMsg_length _, hle, ?_, fbUpdateRequest_length x y w h incr,
+    parseFBUR_fbUpdateRequest incr hx hy hw hh⟩
+  have : (encodingList encs cursor newFB).length < 65536 := by
+    simp only [maxEncodings] at hle; omega
+  simp only [setEncodingsMsg, List.cons_append, List.nil_append, List.drop_succ_cons, List.drop_zero]
+  exact readU16_u16be this _
+
+/-! ## non-vacuity: the hypotheses are met by concrete non-trivial values -/
+
+/-- an RRE rectangle 3×2 at 8 bpp with one sub-rectangle decodes by the specification -/
+example : decodeRRE ⟨3, 2⟩ 1 [0, 0, 0, 1, 7, 9, 0, 1, 0, 0, 0, 2, 0, 1, 0xAA] =
+    some ([7, 9, 9, 7, 7, 7], [0xAA]) := by decide
+
+example : decodeRaw ⟨2, 2⟩ 2 [1, 0, 2, 0, 3, 0, 4, 0, 5] = some ([1, 2, 3, 4], [5]) := by decide
+
+/-- a ZRLE packed-palette tile 3×2 with two colours (1-bit rows, 5 padding bits each) -/
+example : decodeZRLETile (.full 1) 3 2 [2, 10, 20, 0b10100000, 0b01000000, 0xEE] =
+    some ([20, 10, 20, 10, 20, 10], [0xEE]) := by decide
+
+/-- a ZRLE palette-RLE tile with a run whose length byte sequence crosses 255 is accepted -/
+example : (decodeZRLETile (.full 1) 64 5 ([130, 1, 2, 128, 255, 44, 1, 129, 18])).isSome = true := by decide
+
+/-- overlapping copy down-right on a 4×4 framebuffer: the guards of `copyrect_memmove` hold -/
+example : checkRect (FB.blank 4 4) 0 0 3 3 = true ∧ checkRect (FB.blank 4 4) 1 1 3 3 = true ∧
+    (FB.blank 4 4).WF := by
+  refine ⟨by decide, by decide, ?_⟩
+  simp [FB.WF, FB.blank]
+
+/-- a reader state with a part-filled buffer and three pieces -/
+example : NonEmptyChunks [[1, 2], [3], [4, 5, 6]] := by
+  intro c hc; simp at hc; rcases hc with h | h | h <;> simp [h]
+
+/-- CPIXEL selection of the client = the specification's on the format catalogue of the check
+(a test over a finite list, not the general theorem) … -/
+example : (([⟨32, 24, false, true, 255, 255, 255, 16, 8, 0⟩, ⟨32, 24, false, true, 255, 255, 255, 0, 8, 16⟩,
+    ⟨32, 24, true, true, 255, 255, 255, 16, 8, 0⟩, ⟨32, 24, false, true, 255, 255, 255, 24, 16, 8⟩,
+    ⟨32, 24, true, true, 255, 255, 255, 24, 16, 8⟩, ⟨32, 30, false, true, 1023, 1023, 1023, 20, 10, 0⟩,
+    ⟨32, 18, false, true, 63, 63, 63, 12, 6, 0⟩, ⟨16, 16, false, true, 31, 63, 31, 11, 5, 0⟩,
+    ⟨8, 8, false, true, 7, 7, 3, 0, 3, 6⟩] : List PixFmt).all fun f => clientCPix f == f.cpix) = true := by decide
+
+/-- … and the known finding `cpixel-depth`: at depth 32 the code still uses 3 bytes, the RFC 4 -/
+example : clientCPix ⟨32, 32, false, true, 255, 255, 255, 16, 8, 0⟩ = .lo3 ∧
+    (⟨32, 32, false, true, 255, 255, 255, 16, 8, 0⟩ : PixFmt).cpix = .full 4 := by decide
 
 end VncModel.Props.C07
